@@ -22,17 +22,20 @@ META = {
 }
 
 
-class SinkTarget:
-    tcp_closed_by_peer = False
-
-    def tcp_open(self, addr):
-        pass
-
-    def tcp_close(self):
-        pass
+class SinkEndpoint:
+    closed_by_peer = False
+    closed = False
 
     def feed(self, data):
         return b""
+
+    def close(self):
+        self.closed = True
+
+
+class SinkTarget:
+    def accept(self, addr):
+        return SinkEndpoint()
 
 
 def frame(L, fill=0):
@@ -59,7 +62,7 @@ def recv_scenario(fr, cutset, rx_end="timeout", trunc=None):
         with w:
             sk = S.Socket()
             sk.connect("10.0.0.1", 44818)
-            w.rx += data
+            sk.sock.rx += data
             try:
                 r = sk.receive()
                 if r == fr:
